@@ -90,3 +90,158 @@ def _query_len_arms(repo):
     lst = [(n, rows[n]) for n in order] + [(n, v) for n, v in sorted(rows.items()) if n not in order]
     lean = "def queryLenArms : List (String × String) := [" + ", ".join(f"({lean_str(a)}, {lean_str(b)})" for a, b in lst) + "]"
     return lst, lean
+
+
+def _split_top_args(text):
+    """split `a, f(b, c), d` at top-level commas"""
+    out, depth, cur = [], 0, ""
+    for ch in text:
+        if ch in "([{":
+            depth += 1
+        elif ch in ")]}":
+            depth -= 1
+        if ch == "," and depth == 0:
+            out.append(cur.strip())
+            cur = ""
+        else:
+            cur += ch
+    if cur.strip():
+        out.append(cur.strip())
+    return out
+
+
+def _match_arms(inner):
+    """top-level arms `PATTERN => BODY` of a match body: list of (pattern, body text)"""
+    arms, i, n = [], 0, len(inner)
+    while i < n:
+        j = inner.find("=>", i)
+        if j < 0:
+            break
+        pat = inner[i:j].strip()
+        k = j + 2
+        while k < n and inner[k].isspace():
+            k += 1
+        if k < n and inner[k] == "{":
+            depth, e = 0, k
+            while e < n:
+                if inner[e] == "{":
+                    depth += 1
+                elif inner[e] == "}":
+                    depth -= 1
+                    if depth == 0:
+                        break
+                e += 1
+            body = inner[k:e + 1]
+            i = e + 1
+            while i < n and inner[i] in ", \n\t":
+                i += 1
+        else:
+            depth, e = 0, k
+            while e < n and not (inner[e] == "," and depth == 0):
+                if inner[e] in "([{":
+                    depth += 1
+                elif inner[e] in ")]}":
+                    depth -= 1
+                e += 1
+            body = inner[k:e]
+            i = e + 1
+        arms.append((pat, body))
+    return arms
+
+
+@item("C07_REVERSE_ARMS")
+def _reverse_arms(repo):
+    """`Value::reverse`, the `match o.enumerate()`: per `Enumerator` variant whether the FIRST walk of the
+    result runs backwards (`reversed`: `.rev()` / `v.reverse()`), hands the enumerator's iterator on as it is
+    (`forward`), yields nothing (`empty`) or fails (`error`: `None`).  For the arms that keep the boxed iterator
+    for the first walk (`iter.lock().unwrap().take()`), only the branch that uses it is classified."""
+    src = read(repo, "minijinja/src/value/mod.rs")
+    body = fn_body(src, r"pub fn reverse\(&self\)\s*->\s*Result<Value,\s*Error>\s*\{")
+    body = re.sub(r"//.*", "", body)
+    inner = fn_body(body, r"match\s+o\.enumerate\(\)\s*\{")
+    rows = {}
+    for pat, arm in _match_arms(inner):
+        m = re.fullmatch(r"Enumerator::(\w+)(?:\(.*\))?", pat.strip(), re.S)
+        if not m:
+            raise KeyError(f"Value::reverse: unexpected arm pattern `{pat.strip()[:60]}`")
+        name = m.group(1)
+        text = arm
+        if ".take()" in arm:
+            t = re.search(r"if let Some\(\w+\)\s*=\s*\w+\.lock\(\)\.unwrap\(\)\.take\(\)\s*\{", arm)
+            if not t:
+                raise KeyError(f"Value::reverse arm {name}: unexpected use of take()")
+            text = fn_body(arm[t.start():], r"\{")
+        if re.fullmatch(r"\s*None\s*", arm):
+            rows[name] = "error"
+        elif re.search(r"None::<Value>\.into_iter\(\)", text):
+            rows[name] = "empty"
+        elif re.search(r"\.rev\(\)|\b\w+\.reverse\(\)\s*;", text):
+            rows[name] = "reversed"
+        else:
+            rows[name] = "forward"
+    order = ["NonEnumerable", "Empty", "Seq", "Iter", "KeyValueIter", "RevIter", "RevKeyValueIter", "Str", "Values"]
+    missing = [n for n in order if n not in rows]
+    if missing:
+        raise KeyError(f"Value::reverse: no arm for {missing}")
+    lst = [(n, rows[n]) for n in order] + [(n, v) for n, v in sorted(rows.items()) if n not in order]
+    lean = "def reverseArms : List (String × String) := [" + ", ".join(f"({lean_str(a)}, {lean_str(b)})" for a, b in lst) + "]"
+    return lst, lean
+
+
+@item("C07_FILTER_CMP_CALLS")
+def _filter_cmp_calls(repo):
+    """which comparison each collection filter of filters.rs is built on, in source order:
+    `(filter, helper, case flag, reverse flag)` for every call of `cmp_helper` (the last two arguments as
+    written), `(unique, BTreeSet, <key-string accessor>, <lower-casing method>)`, `(min|max, Iterator::min|max, "", "")`,
+    plus the sorting routine each `safe_sort` ends in."""
+    src = read(repo, "minijinja/src/filters.rs")
+    rows = []
+    for fname in ("dictsort", "sort", "groupby"):
+        body = re.sub(r"//.*", "", fn_body(src, r"pub fn %s\([^{]*\{" % fname))
+        calls = []
+        for m in re.finditer(r"\bcmp_helper\(", body):
+            depth, e = 0, m.end() - 1
+            while e < len(body):
+                if body[e] == "(":
+                    depth += 1
+                elif body[e] == ")":
+                    depth -= 1
+                    if depth == 0:
+                        break
+                e += 1
+            args = _split_top_args(body[m.end():e])
+            if len(args) != 4:
+                raise KeyError(f"{fname}: cmp_helper call with {len(args)} arguments")
+            calls.append((fname, "cmp_helper", args[2], args[3]))
+        if not calls:
+            raise KeyError(f"{fname}: no cmp_helper call")
+        if "safe_sort(" not in body:
+            raise KeyError(f"{fname}: does not sort through safe_sort")
+        rows += calls
+    ub = re.sub(r"//.*", "", fn_body(src, r"pub fn unique\([^{]*\{"))
+    acc = re.search(r"value_to_compare\.(\w+)\(\)\s*\{", ub)
+    low = re.search(r"Value::from\(s\.(\w+)\(\)\)", ub)
+    if "BTreeSet::new()" not in ub or not acc or not low or "seen.contains(&memorized_value)" not in ub:
+        raise KeyError("unique: not a BTreeSet of memorised keys")
+    rows.append(("unique", "BTreeSet", acc.group(1), low.group(1)))
+    for fname in ("min", "max"):
+        body = re.sub(r"//.*", "", fn_body(src, r"pub fn %s\([^{]*\{" % fname))
+        m = re.search(r"Ok\(iter\s*\.\s*(\w+)\(([^)]*)\)\s*\.unwrap_or\(Value::UNDEFINED\)\)", body)
+        if not m:
+            raise KeyError(f"{fname}: unexpected body")
+        rows.append((fname, "Iterator::" + m.group(1), m.group(2).strip(), ""))
+    # cmp_helper itself: what it case-folds with and that it reverses last
+    hb = re.sub(r"//.*", "", fn_body(src, r"fn cmp_helper\([^{]*\{"))
+    acc = re.search(r"\(a\.(\w+)\(\),\s*b\.(\w+)\(\)\)", hb)
+    if not acc or acc.group(1) != acc.group(2) or not re.search(r"if reverse\s*\{\s*ordering\.reverse\(\)", hb):
+        raise KeyError("cmp_helper: unexpected shape")
+    rows.append(("cmp_helper", "Value::cmp", acc.group(1), "ordering.reverse()"))
+    ss = read(repo, "minijinja/src/utils.rs")
+    sb = re.sub(r"//.*", "", fn_body(ss, r"pub fn safe_sort<[^{]*\{"))
+    sorts = sorted(set(re.findall(r"seq\.(sort\w*)\(", sb)))
+    if not sorts:
+        raise KeyError("safe_sort: no sort call")
+    rows.append(("safe_sort", ",".join(sorts), "", ""))
+    lean = ("def filterCmpCalls : List (String × String × String × String) := [" +
+            ", ".join(f"({lean_str(a)}, {lean_str(b)}, {lean_str(c)}, {lean_str(d)})" for a, b, c, d in rows) + "]")
+    return rows, lean
